@@ -346,6 +346,177 @@ Definition init_state (nd ngpu cap : nat) : gstate :=
 Definition grun (nd ngpu cap : nat) (direct : bool) (ts : list task) : list tres * bool :=
   run_from (init_state nd ngpu cap) direct 0 ts.
 
+(* ---- PTG-like chaining: the input copy of a flow is the output copy of the last writer ---------------- *)
+(* As PTG-generated code forwards it: data_in of a flow = data_out of the last writer of the tile, i.e. its device
+   copy when it did not push out.  [din] = where the input copy of the flow lives (0 host, s >= 1 device s).
+   Differences with the host-input case, device_gpu.c:
+     reserve_space : "the input data is already on this device": data_out = data_in, nothing to allocate;
+                     a copy whose reference count is above 1 (here: the inputs of the running task, which the
+                     consumer holds) is pushed back to the tail of gpu_mem_lru, and meeting the first such copy
+                     again ends the scan (cycle detection: PARSEC_HOOK_RETURN_AGAIN);
+     stage_in      : gpu_elem == candidate -> version++ / chop for a writer, readers++ for a reader, no ownership call;
+                     input on another device -> it is the D2D source (parsec_gpu_data_copy_acquire_reader), released by
+                     parsec_device_callback_complete_push through parsec_gpu_data_copy_release_reader, which files it in
+                     gpu_mem_owned_lru when it is OWNED, in gpu_mem_lru otherwise;
+     complete_push : flows whose input is on this device are skipped. *)
+Fixpoint evict_loop_p (fuel : nat) (st : gstate) (g : nat) (earlier held : list nat) (cyc : option nat)
+  : option (gstate * nat) :=
+  match fuel with
+  | O => None
+  | S f =>
+      match lru (get_dev st g) with
+      | [] => None
+      | e :: rest =>
+          let st1 := upd_dev st g (fun v => mkdev rest (owned v)) in
+          if match cyc with Some x => Nat.eqb x e | None => false end then None else
+          match copy_at st1 e g with
+          | None => evict_loop_p f st1 g earlier held cyc
+          | Some c =>
+              if negb (rdr c =? 0) then evict_loop_p f st1 g earlier held cyc
+              else if existsb (Nat.eqb e) held
+              then evict_loop_p f (upd_dev st g (fun v => mkdev (rest ++ [e]) (owned v))) g earlier held
+                                (match cyc with Some x => Some x | None => Some e end)
+              else if existsb (Nat.eqb e) earlier then evict_loop_p f st1 g earlier held cyc
+              else Some (set_slot st1 e g None, e)
+          end
+      end
+  end.
+Definition reserve_flow_p (st : gstate) (g : nat) (earlier held : list nat) (d din : nat) (ev : list nat)
+  : option (gstate * list nat) :=
+  if Nat.eqb din g then Some (st, ev) else
+  match copy_at st d g with
+  | Some _ => Some (st, ev)
+  | None =>
+      if Nat.ltb (resident st g) (cap st) then Some (attach_new st d g, ev)
+      else match evict_loop_p (2 * S (length (lru (get_dev st g)))) st g earlier held None with
+           | None => None
+           | Some (st1, e) => Some (attach_new st1 d g, ev ++ [e])
+           end
+  end.
+Fixpoint reserve_from_p (st : gstate) (g : nat) (earlier held : list nat) (fl : list flow) (dins : list nat) (ev : list nat)
+  : option (gstate * list nat) :=
+  match fl, dins with
+  | f :: r, din :: dr =>
+      match reserve_flow_p st g earlier held (fd f) din ev with
+      | None => None
+      | Some (st1, ev1) => reserve_from_p st1 g (earlier ++ [fd f]) held r dr ev1
+      end
+  | _, _ => Some (st, ev)
+  end.
+
+Definition stage_in_p (st : gstate) (g : nat) (f : flow) (din : nat) : option (gstate * nat * list (nat * nat * nat)) :=
+  let d := fd f in let m := fm f in
+  if Nat.eqb din 0 then stage_in st g f
+  else if Nat.eqb din g then
+    match copy_at st d g with
+    | None => None
+    | Some _ =>
+        let st1 := if writes m then chop (upd_coh st d (fun dt => incv dt g)) g d else st in
+        let st2 := if reads m then upd_copy st1 d g (fun c => set_rdr c (rdr c + 1)) else st1 in
+        Some (st2, g, [])
+    end
+  else
+  match copy_at st d g, copy_at st d din with
+  | Some ge, Some cand =>
+      let st := if writes m then chop st g d else st in
+      if reads m && (xfer ge =? 1) then
+        Some (upd_coh st d (fun dt => fst (start dt g (cmode m))), din, [])
+      else
+        let ready := negb (is_invalid (cst cand)) && negb (xfer cand =? 1) && (0 <=? rdr cand) in
+        let acquire := upd_copy st d din (fun c => set_rdr c (rdr c + 1)) in
+        (* (selected source, acquired?, state) or None = the task cannot proceed *)
+        let choice : option (nat * bool * gstate) :=
+          if reads m && negb (writes m) then
+            if ready then Some (din, true, acquire)
+            else let '(sel, pot, st1) := pick_src (pred (ndev st d)) 1 st d g (ver cand) false in
+                 match sel with
+                 | Some t => Some (t, true, st1)
+                 | None =>
+                     if pot && match copy_at st1 d 0 with
+                               | None => true
+                               | Some c0 => negb (ver c0 =? ver cand) || is_invalid (cst c0) || (xfer c0 =? 1)
+                               end
+                     then None else Some (0%nat, false, st1)
+                 end
+          else if reads m then (if 0 <=? rdr cand then Some (din, true, acquire) else None)
+          else Some (din, false, st) in
+        match choice with
+        | None => None
+        | Some (s, acq, st1) =>
+            match copy_at st1 d s with
+            | None => None
+            | Some sc =>
+                let r := snd (start (coh (get_dat st1 d)) g (cmode m)) in
+                let st2 := upd_coh st1 d (fun dt => fst (start dt g (cmode m))) in
+                if r =? -1 then
+                  let st3 := if acq then release_reader st2 s d true else st2 in
+                  let st4 := upd_copy st3 d g (fun c => set_xfer c 2) in
+                  let st5 := upd_coh st4 d (fun dt => endt dt g (cmode m)) in
+                  let st6 := if writes m then upd_coh st5 d (fun dt => setv dt g (ver sc + 1)) else st5 in
+                  Some (st6, s, [])
+                else
+                  let st3 := upd_coh st2 d (fun dt => setv dt g (if writes m then ver sc + 1 else ver sc)) in
+                  let st4 := upd_copy st3 d g (fun c => set_xfer c 1) in
+                  Some (set_val st4 d g (val_at st4 d s), s, [(d, s, g)])
+            end
+        end
+  | _, _ => None
+  end.
+Fixpoint stage_all_p (st : gstate) (g : nat) (fl : list flow) (dins : list nat) (srcs : list nat) (cps : list (nat * nat * nat))
+  : option (gstate * list nat * list (nat * nat * nat)) :=
+  match fl, dins with
+  | f :: r, din :: dr =>
+      match stage_in_p st g f din with
+      | None => None
+      | Some (st1, s, c) => stage_all_p st1 g r dr (srcs ++ [s]) (cps ++ c)
+      end
+  | _, _ => Some (st, srcs, cps)
+  end.
+Fixpoint complete_push_p (st : gstate) (g : nat) (fl : list flow) (dins srcs : list nat) : gstate :=
+  match fl, dins, srcs with
+  | f :: r, din :: dr, s :: sr =>
+      let st1 := if Nat.eqb din g then st else complete_push st g [f] [s] in
+      complete_push_p st1 g r dr sr
+  | _, _, _ => st
+  end.
+
+(* where the next consumer of a tile finds its input: [cur] d = 0 host / device of the last writer *)
+Definition dev_task_p (st : gstate) (cur : list nat) (tid g : nat) (fl : list flow) : option (tres * list nat) :=
+  let dins := map (fun f => nth (fd f) cur 0%nat) fl in
+  let held := map fd (filter (fun f => Nat.eqb (nth (fd f) cur 0%nat) g) fl) in
+  match reserve_from_p st g [] held fl dins [] with
+  | None => None
+  | Some (st1, ev) =>
+      (* an evicted copy is no input any more: its consumers read the tile from the collection *)
+      let cur1 := mapi_from (fun d s => if Nat.eqb s g && existsb (Nat.eqb d) ev then 0%nat else s) 0%nat cur in
+      match stage_all_p st1 g fl dins [] [] with
+      | None => None
+      | Some (st2, srcs, cps) =>
+          let st3 := complete_push_p st2 g fl dins srcs in
+          let ins := ins_of st3 g fl in
+          let st4 := write_all st3 g fl (fval tid ins) in
+          let '(st5, cps2) := pop st4 g fl cps in
+          let st6 := run_d2h st5 g fl in
+          let cur2 := fold_left (fun c f => if writes (fm f) then upd (fd f) (fun _ => if fpo f then 0%nat else g) c else c) fl cur1 in
+          Some (mktres cps2 ins ev (epilog st6 g fl), cur2)
+      end
+  end.
+Fixpoint prun_from (st : gstate) (cur : list nat) (tid : nat) (ts : list task) : list tres * bool :=
+  match ts with
+  | [] => ([], true)
+  | t :: r =>
+      match place t with
+      | O => ([], false)                        (* device tasks only *)
+      | g =>
+          match dev_task_p st cur tid g (flows t) with
+          | None => ([], false)
+          | Some (tr, cur1) => let '(l, ok) := prun_from (tr_st tr) cur1 (S tid) r in (tr :: l, ok)
+          end
+      end
+  end.
+Definition prun (nd ngpu cap : nat) (ts : list task) : list tres * bool :=
+  prun_from (init_state nd ngpu cap) (repeat 0%nat nd) 0 ts.
+
 (* ---- the reference: sequential semantics of the program (what C43 requires the tasks to see) ---- *)
 Definition mem := list Z.
 Definition ref_task (m : mem) (tid : nat) (fl : list flow) : list Z * mem :=
